@@ -563,9 +563,13 @@ that the operations of the package nevertheless behave as the pure functions of
 sequences on live values, all values re-read after every operation (clause `immutable`). -/
 
 open XmppModel.JidHeap in
-/-- regenerated fact: every function of `jid.go`/`unsafe.go` that writes through `append`,
-`copy` or a transformer's `Append` writes only into a slice it made itself; in particular
-`WithResource` copies the bare window first — the flag of the heap model -/
+/-- regenerated fact (since round D a *probe*: the real operations are run on live values -
+root, `Bare`, `Domain`, `Bare.Domain`, `Copy`, `WithResource("")` of six roots, arguments empty /
+shorter / equal length / longer / shrinking under PRECIS - and the root's backing array is
+compared up to its capacity before and after, by reflection on the only byte-slice field of
+`jid.JID`; constructors are called twice and must return disjoint memory): every operation that
+builds a value leaves every existing array untouched; in particular `WithResource` does not
+write into the bare window's spare capacity — the flag of the heap model -/
 theorem C11_gen_writes_on_fresh :
     Generated.C11.writesOnFresh = some [("New", true), ("NewUnsafe", true), ("WithDomain", true),
       ("WithLocal", true), ("WithResource", true)] ∧
